@@ -100,7 +100,7 @@ func (p *Path) store(fr *frame, pos token.Pos, addr Value, v Value) {
 		if a == nil {
 			p.runtimePanic(fr, pos, "invalid memory address or nil pointer dereference")
 		}
-		*a = copyVal(v)
+		assignInPlace(a, v)
 		return
 	case SymPtr:
 		p.unsupported("store into read-only symbolic input array at %s", p.pos(pos))
@@ -629,6 +629,28 @@ func (p *Path) index(fr *frame, instr *ssa.Index, x Value, idx *Term) Value {
 	}
 	p.unsupported("Index on %T", x)
 	return nil
+}
+
+// assignInPlace stores v into the cell. Aggregates are assigned element-wise INTO the existing storage, so that addresses
+// of fields/elements taken earlier (&x.f, &a[i]) stay valid after a whole-value assignment, exactly as in Go.
+func assignInPlace(dst *Value, v Value) {
+	switch nv := v.(type) {
+	case Struct:
+		if old, ok := (*dst).(Struct); ok && len(old) == len(nv) {
+			for i := range nv {
+				assignInPlace(&old[i], nv[i])
+			}
+			return
+		}
+	case Array:
+		if old, ok := (*dst).(Array); ok && len(old) == len(nv) {
+			for i := range nv {
+				assignInPlace(&old[i], nv[i])
+			}
+			return
+		}
+	}
+	*dst = copyVal(v)
 }
 
 // scalarElems: non-empty and every element is a scalar term of one width (symbolic indexing without a case split)
